@@ -577,8 +577,85 @@ fn threads(rep: &Report, rounds: usize, seed: u64) {
     }
 }
 
+/// entry of the ThreadSanitizer build (`vharness --c19-tsan <rounds> <seed>`): threads with private machines
+/// share one Interpreter, one DataParser and one Preprocessor object; TSan aborts the process (exit 66) on a race
+pub fn tsan_main(args: &[String]) -> i32 {
+    let rounds: usize = args.get(0).and_then(|s| s.parse().ok()).unwrap_or(4);
+    let seed: u64 = args.get(1).and_then(|s| s.parse().ok()).unwrap_or(1);
+    let mut executed = 0usize;
+    for round in 0..rounds {
+        let mut rng = Rng::new(seed).fork(0xC19F_0000 + round as u64);
+        let streams: Vec<Stream> = (0..8).map(|_| gen_stream(&mut rng, 40)).collect();
+        let interp = Interpreter::new();
+        let dp = DataParser::new();
+        let pp = Preprocessor::new();
+        let n: usize = std::thread::scope(|sc| {
+            let hs: Vec<_> = streams
+                .iter()
+                .enumerate()
+                .map(|(t, s)| {
+                    let (ip, dp, pp) = (&interp, &dp, &pp);
+                    sc.spawn(move || {
+                        let mut vm = VM::new();
+                        let mut c = mk_ictx();
+                        init_vm(&mut vm, s);
+                        let mut k = 0;
+                        for (i, l) in s.lines.iter().enumerate() {
+                            let _ = step_line(ip, &mut vm, &mut c, i, l);
+                            k += 1;
+                        }
+                        let _ = data_result(dp, &["set 4096", "db 7", "dw [258 , 3]", "db \"abc\"", "bogus"]);
+                        let _ = asm_result(pp, PROBE_PROGRAMS[t % PROBE_PROGRAMS.len()]);
+                        k
+                    })
+                })
+                .collect();
+            hs.into_iter().map(|h| h.join().unwrap_or(0)).sum()
+        });
+        executed += n;
+    }
+    println!("tsan workload done: {} rounds, {} instructions on shared parser objects", rounds, executed);
+    0
+}
+
+fn tsan_layer(rep: &Report) {
+    let bin = match std::env::var("VERIF_TSAN_BIN") {
+        Ok(b) if std::path::Path::new(&b).exists() => b,
+        _ => {
+            rep.note("ThreadSanitizer build not available: the TSan layer was not run (inconclusive for that layer only)".to_string());
+            return;
+        }
+    };
+    let out = std::process::Command::new(&bin).arg("--c19-tsan").arg("12").arg(rep.seed.to_string()).env("TSAN_OPTIONS", "halt_on_error=1 exitcode=66").output();
+    match out {
+        Ok(o) => {
+            let so = String::from_utf8_lossy(&o.stdout).to_string();
+            let se = String::from_utf8_lossy(&o.stderr).to_string();
+            if o.status.success() {
+                rep.count("ThreadSanitizer rounds without a report (8 threads sharing Interpreter/DataParser/Preprocessor)", 12);
+                rep.note(format!("TSan: {}", so.trim()));
+            } else if o.status.code() == Some(66) || se.contains("ThreadSanitizer") {
+                let head: String = se.lines().filter(|l| l.contains("ThreadSanitizer") || l.contains("#0") || l.contains("#1")).take(8).collect::<Vec<_>>().join(" | ");
+                rep.fail(Failure {
+                    sig: "isolation:tsan:data-race".into(),
+                    what: "C19: ThreadSanitizer reports a data race between threads with private machines sharing parser objects".into(),
+                    witness: format!("{{\"kind\": \"tsan\", \"report_head\": {}}}", json_str(&head)),
+                    core_item: None,
+                });
+            } else {
+                rep.note(format!("TSan binary ended with {:?} without a sanitizer report (inconclusive): {}", o.status.code(), se.lines().next().unwrap_or("")));
+                rep.inconclusive("tsan run");
+            }
+        }
+        Err(e) => rep.note(format!("TSan binary could not be started: {} (inconclusive for that layer)", e)),
+    }
+}
+
 pub fn run(rep: &Report) {
     let t = rep.thorough();
+    if t {
+        tsan_layer(rep);
+    }
     repeated_runs(rep, if t { 3000 } else { 160 }, 8, rep.seed);
     interleavings(rep, if t { 60_000 } else { 1500 }, rep.seed);
     parser_reuse(rep, if t { 1500 } else { 48 }, rep.seed);
